@@ -113,11 +113,14 @@ Definition used_prec (f : fspec) (v : value) : option Z :=
   | Raise _ => None
   end.
 
-(** [x] rounded (half-even, on the exact value) to [q] decimals of its scientific form *)
+(** the decimal that ['%w.qe'] prints for [x]: mantissa digits [N] and exponent [k] as the
+    formatter computes them ([Fmt.sci]: [x] rounded half-even, on the exact value, to [q]
+    decimals of its scientific form), i.e. [N * 10^(k - (digits of N - 1))]; [N] has [q + 1]
+    digits (the formatter is run against CPython on every C02 check) *)
 Definition round_dec (q : Z) (ng : bool) (m e : Z) : fval :=
   if m =? 0 then Fin ng 0 0 else
   let '(num, den) := num_den m e in
-  let '(N, k) := sci q num den in Fin ng (Z.to_N N) (k - q).
+  let '(N, k) := sci q num den in Fin ng (Z.to_N N) (k - (ndig N - 1)).
 
 (** the value a field holds after one write/read cycle, computed arithmetically:
     absent stays absent, an integer stays, a real becomes the double nearest its
